@@ -1,14 +1,10 @@
 package checks
 
 import (
-	"encoding/json"
 	"fmt"
 
-	"github.com/corestario/kyber/sign/tbls"
-	"github.com/lidofinance/dc4bc/fsm/types/requests"
-
-	"verif/mc/oracle"
 	"verif/mc/world"
+	"verif/mc/worldx"
 )
 
 func init() { Registry["dbg"] = dbg }
@@ -16,28 +12,45 @@ func init() { Registry["dbg"] = dbg }
 func dbg(tier string, args []string) int {
 	out := world.RealStdout
 	r := newRun("DBG", tier, "exploration")
-	sw := SetupSignWorld(r, 3, 2, 1)
-	k := sw.Workers[0]
-	krs, _ := k.W.Airs[0].M.GetBLSKeyrings()
-	pubPoly := krs[sw.Round].PubPoly
-	for _, tasks := range [][]requests.SigningTask{{taskAlphabet()[1]}, {taskAlphabet()[0], taskAlphabet()[1]}, {{MessageID: "t-bin", File: "ok", Payload: []byte{0xff, 0xfe, 0x00, 0x80}}}} {
-		m := k.W.ProposalMessage(0, sw.Round, "dbgb"+fmt.Sprint(len(tasks))+tasks[0].File, tasks)
-		s1 := k.PostMsg(sw.Init, m, "p")
-		s1, _ = k.DrainEager(s1, nil)
-		ops := k.Pending(s1, 0)
-		fmt.Fprintf(out, "ops=%d state=%s\n", len(ops), k.C.Snapshot(s1.Snap[0]).RoundState(sw.Round))
-		if len(ops) == 0 {
-			continue
+	d := &DKGRun{N: 2, T: 2}
+	d.Setup(r)
+	k := d.K
+	s := d.Init
+	// order A: node0 then node1 ; order B: node1 then node0
+	step := func(s *worldx.State, i int) *worldx.State {
+		ops := k.Pending(s, i)
+		c, _, err := k.OperateOp(s, i, ops[0].ID, nil)
+		if err != nil {
+			fmt.Fprintln(out, err)
 		}
-		c, apiErr, err := k.OperateOp(s1, 0, ops[0].ID, nil)
-		fmt.Fprintln(out, apiErr, err)
-		pm := c.Log[len(c.Log)-1]
-		var req requests.SigningProposalBatchPartialSignRequests
-		json.Unmarshal(pm.Data, &req)
-		for _, ps := range req.PartialSigns {
-			for _, t := range tasks {
-				if t.MessageID == ps.MessageID {
-					fmt.Fprintf(out, "%s verify=%v\n", ps.MessageID, tbls.Verify(oracle.Suite(), pubPoly, t.Payload, ps.Sign))
+		c, _ = k.DrainEager(c, nil)
+		return c
+	}
+	a := step(step(s, 0), 1)
+	b := step(step(s, 1), 0)
+	fmt.Fprintln(out, a.Key() == b.Key(), a.KeyNoLog, b.KeyNoLog)
+	for i := range a.Snap {
+		if a.Snap[i] != b.Snap[i] {
+			sa, sb := k.C.Snapshot(a.Snap[i]), k.C.Snapshot(b.Snap[i])
+			for _, key := range sa.DiffKeys(sb) {
+				x, y := sa[key], sb[key]
+				for p := 0; p < len(x) && p < len(y); p++ {
+					if x[p] != y[p] {
+						lo := p - 80
+						if lo < 0 {
+							lo = 0
+						}
+						hi := p + 80
+						if hi > len(x) {
+							hi = len(x)
+						}
+						hj := p + 80
+						if hj > len(y) {
+							hj = len(y)
+						}
+						fmt.Fprintf(out, "node %d key %s differs at %d:\n A: %s\n B: %s\n", i, key, p, x[lo:hi], y[lo:hj])
+						break
+					}
 				}
 			}
 		}
